@@ -624,4 +624,125 @@ theorem bn_splitRel_names (dirs : List (Str × Str)) (d : Seg) (tl : List Seg)
   simp only [pathClean_of_validPath _ hv, hv, hnd, hparts.1, hparts.2]
   simp
 
+theorem bn_validSub_joinWith (tl : List Seg) (hn : ∀ x ∈ tl, NameNS x) : ValidSub (joinWith '/' tl) := by
+  cases tl with
+  | nil => exact Or.inl rfl
+  | cons t r =>
+    right
+    have hsplit : splitOn '/' (joinWith '/' (t :: r)) = t :: r :=
+      splitOn_joinWith '/' _ (by simp) (fun x hx => (hn x hx).2)
+    have hnd : joinWith '/' (t :: r) ≠ dot :=
+      joinWith_ne_dot _ (by simp) (fun _ _ => Or.inr trivial) (fun x hx => (hn x hx).1.2.1)
+    refine ⟨?_, hnd⟩
+    unfold validPath
+    rw [hsplit]
+    simp only [hnd, decide_false, Bool.false_or, List.all_eq_true]
+    intro x hx
+    exact (plain_iff x).mpr (hn x hx).1
+
+/-! ## the lookups on a bundle whose stored directory names are single components -/
+
+/-- `LocalPathForRemoteSource`: the answer is `root/dir/sub`, component-wise, hence below the root -/
+theorem bn_remote_inside (b : Bundle) (pkg sub p : Str) (hr : AbsClean b.root)
+    (hdirs : ∀ k d, aget b.pkgDirs k = some d → NameNS d)
+    (hl : localPathForRemote b pkg sub = some p) (hs : ValidSub sub) :
+    ∃ dir, aget b.pkgDirs pkg = some dir ∧ p = pathJoin3 b.root dir sub ∧ AbsClean p ∧
+      pathSegs p = pathSegs b.root ++ dir :: pathSegs sub ∧
+      isWithin b.root p = true ∧ p ≠ b.root := by
+  unfold localPathForRemote at hl
+  cases hd : aget b.pkgDirs pkg with
+  | none => rw [hd] at hl; cases hl
+  | some dir =>
+    rw [hd] at hl
+    simp only [Option.some.injEq] at hl
+    have hname := hdirs pkg dir hd
+    obtain ⟨_, hp, hsegs⟩ := bn_pathJoin3_names b.root dir sub hr hname (bn_pathSegs_validSub sub hs).1
+    rw [hl] at hp hsegs
+    refine ⟨dir, rfl, hl.symm, hp, hsegs, ?_, ?_⟩
+    · exact (isWithin_iff b.root p hr hp).mpr ⟨dir :: pathSegs sub, hsegs.symm⟩
+    · intro e
+      have := congrArg List.length hsegs
+      rw [e] at this
+      simp only [List.length_append, List.length_cons] at this
+      omega
+
+/-! ## the `open*` loops under an oracle that accepts every row (used by C09) -/
+
+theorem bn_openPackages_ok (o : BundleOracle) : ∀ (pkgs : List MPkg) (b : Bundle),
+    (∀ p ∈ pkgs, validLocalDir p.localDir = true ∧ o.parsePkg p.source = some p.source) →
+    ∃ b', openPackages o pkgs b = some b' ∧ b'.root = b.root ∧
+      b'.regSources = b.regSources ∧ b'.regDeprec = b.regDeprec ∧
+      b'.pkgDirs = bnInsertAll b.pkgDirs (pkgs.map (fun p => (p.source, p.localDir))) ∧
+      b'.pkgMeta = bnInsertAll b.pkgMeta
+        ((pkgs.filter (fun p => p.commit ≠ [])).map (fun p => (p.source, (p.commit, p.msg)))) := by
+  intro pkgs
+  induction pkgs with
+  | nil => intro b _; exact ⟨b, rfl, rfl, rfl, rfl, rfl, rfl⟩
+  | cons q rest ih =>
+    intro b h
+    obtain ⟨hv, hk⟩ := h q (by simp)
+    have hrest : ∀ p ∈ rest, validLocalDir p.localDir = true ∧ o.parsePkg p.source = some p.source :=
+      fun p hp => h p (List.mem_cons_of_mem _ hp)
+    rw [bn_openPackages_cons]
+    simp only [hv, Bool.not_true, Bool.false_eq_true, if_false, hk]
+    by_cases hc : q.commit = []
+    · simp only [hc, ne_eq, not_true_eq_false, if_false]
+      obtain ⟨b', h0, h1, h2, h3, h4, h5⟩ := ih _ hrest
+      refine ⟨b', h0, h1, h2, h3, ?_, ?_⟩
+      · rw [h4, List.map_cons, bnInsertAll_cons]
+      · rw [h5, List.filter_cons_of_neg (by simp [hc])]
+    · simp only [hc, ne_eq, not_false_eq_true, if_true]
+      obtain ⟨b', h0, h1, h2, h3, h4, h5⟩ := ih _ hrest
+      refine ⟨b', h0, h1, h2, h3, ?_, ?_⟩
+      · rw [h4, List.map_cons, bnInsertAll_cons]
+      · rw [h5, List.filter_cons_of_pos (by simp [hc]), List.map_cons, bnInsertAll_cons]
+
+/-- the deprecation value `OpenDir` stores for a version row -/
+def bnVerDeprec (v : MVer) : Option (Str × Str) := if v.deprecated then some (v.reason, v.link) else none
+
+theorem bn_openVersions_ok (o : BundleOracle) (reg : Str) (g : MVer → Str × Str) :
+    ∀ (vs : List MVer) (b : Bundle),
+    (∀ v ∈ vs, o.parseVer v.ver = some v.ver ∧ o.parseRemoteSrc v.source = some (g v)) →
+    ∃ b', openVersions o reg vs b = some b' ∧ b'.root = b.root ∧
+      b'.pkgDirs = b.pkgDirs ∧ b'.pkgMeta = b.pkgMeta ∧
+      b'.regSources = bnInsertAll b.regSources (vs.map (fun v => ((reg, v.ver), g v))) ∧
+      b'.regDeprec = bnInsertAll b.regDeprec (vs.map (fun v => ((reg, v.ver), bnVerDeprec v))) := by
+  intro vs
+  induction vs with
+  | nil => intro b _; exact ⟨b, rfl, rfl, rfl, rfl, rfl, rfl⟩
+  | cons v rest ih =>
+    intro b h
+    obtain ⟨hv, hs⟩ := h v (by simp)
+    rw [bn_openVersions_cons]
+    simp only [hv, hs]
+    obtain ⟨b', h0, h1, h2, h3, h4, h5⟩ := ih _ (fun x hx => h x (List.mem_cons_of_mem _ hx))
+    refine ⟨b', h0, h1, h2, h3, ?_, ?_⟩
+    · rw [h4, List.map_cons, bnInsertAll_cons]
+    · rw [h5, List.map_cons, bnInsertAll_cons]; rfl
+
+theorem bn_openRegistry_ok (o : BundleOracle) (g : MVer → Str × Str) :
+    ∀ (rs : List MReg) (b : Bundle),
+    (∀ r ∈ rs, o.parseRegPkg r.source = some r.source ∧
+      ∀ v ∈ r.versions, o.parseVer v.ver = some v.ver ∧ o.parseRemoteSrc v.source = some (g v)) →
+    ∃ b', openRegistry o rs b = some b' ∧ b'.root = b.root ∧
+      b'.pkgDirs = b.pkgDirs ∧ b'.pkgMeta = b.pkgMeta ∧
+      b'.regSources = bnInsertAll b.regSources
+        (rs.flatMap (fun r => r.versions.map (fun v => ((r.source, v.ver), g v)))) ∧
+      b'.regDeprec = bnInsertAll b.regDeprec
+        (rs.flatMap (fun r => r.versions.map (fun v => ((r.source, v.ver), bnVerDeprec v)))) := by
+  intro rs
+  induction rs with
+  | nil => intro b _; exact ⟨b, rfl, rfl, rfl, rfl, rfl, rfl⟩
+  | cons r rest ih =>
+    intro b h
+    obtain ⟨hk, hvs⟩ := h r (by simp)
+    rw [bn_openRegistry_cons]
+    simp only [hk]
+    obtain ⟨b1, g0, g1, g2, g3, g4, g5⟩ := bn_openVersions_ok o r.source g r.versions b hvs
+    simp only [g0]
+    obtain ⟨b', h0, h1, h2, h3, h4, h5⟩ := ih b1 (fun x hx => h x (List.mem_cons_of_mem _ hx))
+    refine ⟨b', h0, h1.trans g1, h2.trans g2, h3.trans g3, ?_, ?_⟩
+    · rw [h4, g4, List.flatMap_cons, bnInsertAll_append]
+    · rw [h5, g5, List.flatMap_cons, bnInsertAll_append]
+
 end Slug
